@@ -194,9 +194,12 @@ def marks_for(size, cuts):
     """markers at the start, the end and on both sides of every extent boundary in `cuts`"""
     m = {0: b'HEAD-OF-FILE....', size - 16: b'TAIL-OF-THE-FILE'}
     for i, c in enumerate(cuts):
-        if 16 <= c <= size - 16:
+        # markers never overlap (a tail shorter than two markers keeps the tail marker only)
+        if 32 <= c <= size - 32:
             m[c - 16] = b'END-OF-CHUNK-%03d' % i
             m[c] = b'START-OF-CHNK%03d' % i
+        elif 32 <= c < size - 16:
+            m[c - 16] = b'END-OF-CHUNK-%03d' % i
     return m
 
 
